@@ -23,7 +23,7 @@ def rp(rng, fam):
 
 
 def gen_pair(rng):
-    fam = rng.choice(['ll', 'll-vert', 'll-horiz', 'll-stem-bar', 'quad', 'quad-linear-x', 'cubic', 'cubic-elevated', 'cubic-straight', 'cubic-arch', 'cubic-vline', 'cubic-hline', 'cubic-near-elevated', 'cubic-near-straight', 'quad-near-linear', 'cubic-flat-end'])
+    fam = rng.choice(['ll', 'll-vert', 'll-horiz', 'll-stem-bar', 'quad', 'quad-linear-x', 'cubic', 'cubic-elevated', 'cubic-straight', 'cubic-arch', 'cubic-vline', 'cubic-hline', 'cubic-near-elevated', 'cubic-near-straight', 'quad-near-linear', 'cubic-flat-end', 'end-hook'])
     cf = rng.choice(['int', 'float'])
     def rline():
         return Line(rp(rng, cf), rp(rng, cf))
@@ -44,6 +44,18 @@ def gen_pair(rng):
         else: b = rline()
         if rng.random() < 0.5: a, b = b, a
         return fam, a, b
+    if fam == 'end-hook':
+        # a small hook in the first (or last) percent of the curve that sticks out of the box of everything else, crossed twice by a line
+        a = rng.uniform(500, 2000); ts = rng.uniform(0.002, 0.008); b = rng.uniform(1e4, 5e4)
+        c = QuadraticBezier(P(0.0, 0.0), P(-a, b), P(a * (1 - 2 * ts) / ts, rng.uniform(2e4, 6e4)))       # x(t) has its minimum -a*ts at t = ts
+        if rng.random() < 0.4: c = c.toCubicBezier()
+        x = -a * ts * rng.uniform(0.4, 0.8)
+        l = Line(P(x, -1000.0), P(x, 2 * b * 0.05))
+        if rng.random() < 0.5: c = type(c)(*[P(p.x, p.y) for p in reversed(c.points)])
+        if rng.random() < 0.5:
+            o = P(float(rng.randint(-50, 50)), float(rng.randint(-50, 50))); ang = rng.uniform(0, 6.283)
+            c = c.rotated(o, ang); l = l.rotated(o, ang)
+        return fam, c, l
     if fam == 'cubic-flat-end':
         # three consecutive control points at the same signed distance from the line, the fourth on the other side: the depressed
         # cubic along the line's normal has p = 0 (one real root; Cardano's two cube roots degenerate), exactly or nearly
@@ -100,7 +112,7 @@ def gen_pair(rng):
 def pts_of(s): return [(p.x, p.y) for p in s.points]
 
 
-def truth(c, l):
+def truth(c, l, tangent_eps=1e-3):
     """(list of true crossings (t on c, u on l), in_general_position)"""
     a, b = (l[0].x, l[0].y), (l[1].x, l[1].y)
     if math.hypot(b[0] - a[0], b[1] - a[1]) < 1.0: return [], False
@@ -111,7 +123,7 @@ def truth(c, l):
         n1, n2 = math.hypot(*d1), math.hypot(*d2)
         if n1 < 1.0: return [], False
         if abs(d1[0] * d2[1] - d1[1] * d2[0]) < 1e-3 * n1 * n2: return [], False
-    elif ref.near_tangent(cps, a, b): return [], False
+    elif ref.near_tangent(cps, a, b, tangent_eps): return [], False
     xs = ref.curve_carrier_crossings(cps, a, b)
     ok, res = True, []
     for x in xs:
@@ -125,9 +137,9 @@ def truth(c, l):
     return res, ok
 
 
-def check_pair(c, l):
+def check_pair(c, l, tangent_eps=1e-3):
     """property C05 on the real implementation for one pair; returns (failures, n_true)"""
-    tr, ok = truth(c, l)
+    tr, ok = truth(c, l, tangent_eps)
     if not ok: return None, 0
     fails = []
     scale = max(1.0, max(abs(v) for p in pts_of(c) + pts_of(l) for v in p))
@@ -172,7 +184,9 @@ def search(ctx):
     failfam = {}
     for _ in range(n):
         fam, c, l = gen_pair(rng)
-        f, ntrue = check_pair(c, l)
+        # a hook in the first/last percent is small against the whole curve by construction: its two crossings are still transversal (slope test), so the
+        # tangency screen is taken relative to the hook, not to the curve
+        f, ntrue = check_pair(c, l, 1e-7 if fam == 'end-hook' else 1e-3)
         if f is None:
             dist[fam + '/skipped-not-general-position'] = dist.get(fam + '/skipped-not-general-position', 0) + 1; continue
         evals += 1
@@ -183,13 +197,24 @@ def search(ctx):
             failfam[fam] = failfam.get(fam, 0) + 1
             fails.append({'class': classify(c, l), 'what': f[0], 'input': {'family': fam, 'a': gen.seg_json(c), 'b': gen.seg_json(l)}, 'observed': f,
                           'expected': 'exactly the transversal crossings strictly inside both segments, parameters in (0,1], points within 1e-6*magnitude'})
+    # stale state on either operand: intersect, edit the LINE (or the curve) in place, intersect again
+    for _ in range(ctx.n(60, 1000)):
+        fam, c, l = gen_pair(rng)
+        if len(l.points) != 2: continue
+        edit_line = rng.random() < 0.6
+        tgt, other = (l, c) if edit_line else (c, l)
+        qs = {'intersections (as argument)': lambda x: [(i.t1, i.t2) for i in gen.fresh_copy(other).intersections(x)],
+              'intersections (as receiver)': lambda x: [(i.t1, i.t2) for i in x.intersections(gen.fresh_copy(other))]}
+        ff = gen.freshness(rng, tgt, qs)
+        evals += 1; dist['stale-state'] = dist.get('stale-state', 0) + 1
+        if ff: fails.append({'class': 'C05-stale-state', 'what': ff[0], 'input': {'family': fam, 'a': gen.seg_json(c), 'b': gen.seg_json(l), 'stale': True}, 'observed': ff[:3], 'expected': 'the answer for freshly constructed segments with the same control points'})
     return {'evaluations': evals, 'distinct_nontrivial': len(nontrivial), 'failures': fails, 'distribution': dist, 'samples': samples,
             'measured': {'failures_by_family': failfam}}
 
 
 def replay(ctx, payload):
     i = payload['input']
-    f, _ = check_pair(gen.seg_from_json(i['a']), gen.seg_from_json(i['b']))
+    f, _ = check_pair(gen.seg_from_json(i['a']), gen.seg_from_json(i['b']), 1e-7 if i.get('family') == 'end-hook' else 1e-3)
     return {'fails': bool(f), 'observed': f}
 
 
